@@ -169,7 +169,7 @@ Compare(s, sn) ==
                               \/ SnapRec(sn, d).sa # s.D[d].startedAt
                               \/ (d # RootId /\ SnapRec(sn, d).par # s.D[d].parent)
          THEN {"C07_Structure"} ELSE {})
-   \cup (IF SnapLevels(sn) # s.L /\ ids = Ids(s) THEN {"C07_LevelOrder"} ELSE {})
+   \cup (IF SnapLevels(sn) # s.L /\ ids = Ids(s) THEN {"Info_LevelOrder"} ELSE {})
 
 \* does the model state differ from the observed projection in any field (flagged or not)?
 Differs(s, sn) ==
@@ -213,7 +213,7 @@ SnapClauses(s, sn) ==
 \* Clauses of HMS.tla on the (observed) state
 StateClauses(s) ==
         (IF ~C07_Structure(s) THEN {"C07_Structure"} ELSE {})
-   \cup (IF C07_Structure(s) /\ ~C07_IdLaw(s) THEN {"C07_IdLaw"} ELSE {})
+   \cup (IF C07_Structure(s) /\ ~C07_IdLaw(s) THEN {"Info_IdLaw"} ELSE {})     \* the id scheme is mechanism, not property
    \cup (IF ~C08_ActiveWithinLimit(s) THEN {"C08_ActiveWithinLimit"} ELSE {})
    \cup (IF ~C05_WindDownAtMostOne(s) THEN {"C05_WindDownAtMostOne"} ELSE {})
    \cup (IF ~C06_NewbornHasNotRun(s) THEN {"C06_NewbornHasNotRun"} ELSE {})
@@ -234,7 +234,10 @@ RoundOf(e) == [i \in DOMAIN e.ret |-> <<e.ret[i][1], Len(e.ret[i][2])>>]
 
 Post(s, e) ==
     CASE e.e = "gsc" ->
-           LET verr == IF GscModelled(s) /\ GscVal(s) # e.v THEN {"C05_GscVerdict"} ELSE {}
+           \* the property states the verdict only for MetaepochLimit(n) ("exactly n") and DontRun ("zero"); a different
+           \* verdict of another shipped condition is recorded as information
+           LET verr == IF GscModelled(s) /\ GscVal(s) # e.v
+                       THEN {IF s.cfg.gsc \in {"MetaepochLimit", "DontRun"} THEN "C05_GscVerdict" ELSE "Info_GscVerdict"} ELSE {}
                latch == IF s.gscSeen /\ ~e.v /\ s.cfg.gsc # "Scripted" THEN {"C05_GscNotMonotone"} ELSE {}
            IN CASE e.by = "deme" ->
                      IF EnGenGsc(s, e.d)
@@ -246,7 +249,7 @@ Post(s, e) ==
                 [] OTHER -> R(s, {})
       [] e.e = "lsc" ->
            IF EnLsc(s, e.d)
-           THEN LET verr == IF LscModelled(s, e.d) /\ LscVal(s, e.d) # e.v THEN {"C06_LscVerdict"} ELSE {}
+           THEN LET verr == IF LscModelled(s, e.d) /\ LscVal(s, e.d) # e.v THEN {"Info_LscVerdict"} ELSE {}
                     self == ~e.v /\ Eng(s, e.d) = "CMA" /\ LookaheadInactive(e.d)
                 IN R(DoLsc(s, e.d, e.v, self), verr)
            ELSE R(s, {})
